@@ -13,10 +13,10 @@ PROP = dict(
     timeout={"quick": 600, "thorough": 3000},
 )
 MANIFEST = dict(
-    level="Machine-checked proof (Coq 8.16, no axioms) over Gallina models of the SSZ codecs: 44 Go types plus the fork-digest dispatch of the 5 beacon Forked* wrappers, all with theorems. "
-          "codec_ok (round trip + over-limit values rejected + decoded values within the declared limits + canonicity) for: the 11 portalwire messages; the 5 ping_ext payloads; "
-          "14 history-network containers (the accumulator/roots/summaries proofs, BlockHeaderWithProof, the ephemeral-header keys and payload, PortalReceipts, HeaderRecord, "
-          "BlockBodyLegacy, PortalBlockBodyShanghai, EpochAccumulator); the 4 fastssz beacon keys and HistoricalSummariesWithProofKey; the 9 state-network types (the three content keys, "
+    level="Machine-checked proof (Coq 8.16, no axioms) over Gallina models of the SSZ codecs: 48 Go types plus the fork-digest dispatch of the 5 beacon Forked* wrappers, all with theorems. "
+          "codec_ok (round trip + over-limit values rejected + decoded values within the declared limits + canonicity) for: the 11 portalwire messages; the 5 ping_ext payloads and CustomPayloadExtensionsFormatPayload; "
+          "17 history-network containers (the accumulator/roots/summaries proofs, both BlockHeaderWithProof types, the ephemeral-header keys and payload, PortalReceipts, HeaderRecord, "
+          "BlockBodyLegacy, PortalBlockBodyShanghai, EpochAccumulator, SSZProof, MasterAccumulator); the 4 fastssz beacon keys and HistoricalSummariesWithProofKey; the 9 state-network types (the three content keys, "
           "TrieNode, TrieProof, ContractBytecodeContainer and the three *WithProof containers). The ztyp-based types are derived from generic theorems about the library combinators "
           "(Proofs/Ztyp.v: a Container reads exactly what the encoder writes, for any exact field decoders; dynamic lists; totality). Forked* wrappers: unknown digests rejected, the digest "
           "selects the fork's payload type, round trip and canonicity of digest||payload for any payload codec satisfying the stated library contract (Section hypotheses: round trip, "
@@ -25,12 +25,12 @@ MANIFEST = dict(
           "Round trips of PortalReceipts / the block bodies / the *WithProof containers carry the explicit hypothesis that the encoding fits 32-bit offsets. "
           "Eighteen decoders were lax or wrong as found (zero first offset, trailing bytes after fixed-size ztyp values, empty list not round-tripping); all are repaired in /repo "
           "(fixes/C14-*.diff); theorems are stated against model flags that say which variant the tree has; as-found variants keep `_refuted` lemmas with witnesses. "
-          "Not modelled: LightClientUpdateRange, SSZProof, MasterAccumulator, the zrnt payload codecs themselves (opaque). Every model is tied to the code on every run by differential "
+          "Not modelled: LightClientUpdateRange, the zrnt payload codecs themselves (opaque). Every model is tied to the code on every run by differential "
           "execution of the real Marshal/Unmarshal (Serialize/Deserialize) against the extracted model (about 23,000 cases per quick run); struct tags, exported limits and fork digests are "
           "compared with the model's literals.",
     note="Trusted: Coq kernel, extraction + OCaml driver, Go harness; model/code agreement outside the generated inputs is tested, not proved. fastssz and ztyp helpers are re-implemented "
          "in the model (validated by the same run); the zrnt payload codecs behind the Forked* wrappers are Section variables whose per-input values the harness obtains by calling the library. "
-         "Decoders are run on fresh values only. List counts near 16384 (receipts, transactions) and the 16 MiB item limit are not exercised. Observation (not a C14 defect, not changed): "
+         "Decoders are run on fresh values only. List counts near 16384 (receipts, transactions) and the 16 MiB item limit are not exercised; the 65536-witness boundary of SSZProof only in the thorough tier. Observation (not a C14 defect, not changed): "
          "ForkedHistoricalSummariesWithProof has no digest switch - every fork digest is accepted. Repaired defects are status=fixed in known_findings.d/C14.json and suppress nothing.",
     technique="Coq proof (combinator lemmas for offsets/lists, generic invariants of the ztyp reader/Container/List, iff-characterisation or closed form of each decoder) + model/implementation correspondence run with property monitors",
 )
